@@ -42,6 +42,9 @@ def scenarios(rng, quick):
     longin = [300] + [5, 300] * 30
     S.append(dict(name='parse_long', pre=['NEW 0'] + ca.define_lines(0, lst), target=['PARSE 0 0 %d %s' % (len(longin), ' '.join(map(str, longin)))], post_free=True, kind='parse'))
     S.append(dict(name='parse_long_all', pre=['NEW 0', 'SET 0 2 0', 'SET 0 0 2'] + ca.define_lines(0, lst), target=['PARSE 0 1 %d %s' % (len(longin), ' '.join(map(str, longin)))], post_free=True, kind='parse'))
+    # a rule with a hundred alternatives (the stacks of the description parser outgrow their initial size)
+    many = "S : " + " | ".join("'a' " * (k % 3 + 1) + "'b'" + (" 'c'" * (k // 3)) for k in range(100)) + " ;\n"
+    S.append(dict(name='desc_many_alternatives', pre=['NEW 0'], target=['DESC 0 0 %s' % hx(many)], post_free=True, kind='define'))
     # twins of the definition scenarios in which the previous call was made on another object
     for sc in [x for x in S if x['kind'] in ('define', 'new')]:
         S.append(dict(sc, name=sc['name'] + '_after_other', touch=True))
@@ -98,7 +101,7 @@ def run(pid, tier, seed, replay=None):
     script, meta = [], []
     for i, (sc, n) in enumerate(zip(S, counts)):
         ks = list(range(1, n + 1))
-        if quick and len(ks) > 60 and not sc['name'].startswith(('define_big', 'parse_long')):
+        if quick and len(ks) > 60 and not sc['name'].startswith(('define_big', 'parse_long', 'desc_many')):
             ks = sorted(set(ks[:25] + rng.sample(ks[25:], 35)))
         for k in ks:
             script.append(case_lines('f%d_%d' % (i, k), sc, witness, k)); meta.append((i, k))
